@@ -66,8 +66,14 @@ def model_spa_class():
                 self._echo([(handler.position, bytes(handler.new_data))], sender)
             self.commands.append(rec)
 
+        hold_wc = False   # keep the answers to watercare queries back (a slow spa); they are released with the mode AS IT WAS when asked
+        held = []
+
         def _on_watercare(self, handler, sender):
             # GETWC -> WCGET(mode); the SETWC verb is not claimed by the library's handler (finding D4), so it is decoded in dispatch below
+            if self.hold_wc:
+                self.held.append(GeckoWatercareProtocolHandler.response(self.wc_mode, parms=sender))
+                return
             self._socket.queue_send(GeckoWatercareProtocolHandler.response(self.wc_mode, parms=sender), sender)
     return ModelSpa
 
@@ -81,6 +87,8 @@ def connect_stack(loop, snapshot):
             pass
     cls = model_spa_class()
     cls.commands = []
+    cls.held = []
+    cls.hold_wc = False
     sim = fakenet.make_sim(snapshot, cls)
     net = fakenet.Network(loop, sim)
     loop.network = net
@@ -253,6 +261,49 @@ def run_snapshot(ctx, snapshot, lines, impl_ans, rng):
                 ctx.hist("commands", "watercare")
                 if label in wc.modes and (len(new) != 1 or wc.mode != wc.modes.index(label) or sim.wc_mode != wc.modes.index(label)):
                     ctx.violation("watercare", {"snapshot": name, "label": label}, "one SETWC, mode stored on both sides", [obs, wc.mode, sim.wc_mode])
+            # ---- a watercare command issued while the facade's own watercare poll is in flight (its answer, describing the mode
+            #      BEFORE the command, arrives after the command was issued): the client must still read back the requested mode
+            import geckolib.config as gcfg
+            for trial in range(2):
+                cur = sim.wc_mode
+                want = (cur + 1 + trial) % len(wc.modes)
+                sim.hold_wc = True
+                del sim.held[:]
+                for _ in range(60):
+                    if sim.held:
+                        break
+                    try:
+                        gcfg.set_config_mode(gcfg.GeckoConfig.PING_FREQUENCY_IN_SECONDS == gcfg._GeckoActiveConfig.PING_FREQUENCY_IN_SECONDS)   # wakes the facade update loop, same table
+                    except Exception:  # noqa
+                        pass
+                    await asyncio.sleep(0.1)
+                if not sim.held:
+                    sim.hold_wc = False
+                    ctx.hist("commands", "watercare-during-poll:poll-not-seen")
+                    break
+                n0 = len(sim.commands)
+                t = asyncio.ensure_future(wc.async_set_mode(wc.modes[want]))
+                await asyncio.sleep(0.3)
+                sim.hold_wc = False
+                live = [x for x in net.transports if not x.closed]
+                for hdl in sim.held:
+                    if live:
+                        net.push(live[-1], hdl.send_bytes)
+                del sim.held[:]
+                try:
+                    await asyncio.wait_for(t, 30)
+                    err = None
+                except Exception as e:  # noqa
+                    err = type(e).__name__
+                await settle(1.5)
+                ctx.count("evaluations")
+                ctx.hist("commands", "watercare-during-poll")
+                sent = [c for c in sim.commands[n0:] if c.get("kind") == "setwc"]
+                if err is not None or len(sent) != 1 or sim.wc_mode != want or wc.mode != want:
+                    ctx.violation("watercare-during-poll", {"snapshot": name, "from": cur, "to": want},
+                                  f"one SETWC; spa and client both read mode {want} afterwards",
+                                  {"error": err, "setwc_sent": len(sent), "spa_mode": sim.wc_mode, "client_mode": wc.mode})
+                    break
             # ---- the mirror equals the spa block after the whole command sequence
             await settle(2.0)
             if spa.struct.status_block != sim.structure.status_block:
